@@ -82,4 +82,46 @@ dbus_bool_t verif_stub_process_command (DBusAuth *auth)
   auth->needed_memory = FALSE;
   return TRUE;
 }
+
+/* ---- the loop of _dbus_auth_do_work, closed by induction inside the contract of its only callee ----
+ * CBMC's own loop-contract instrumentation cannot be used here: it havocs auth->state, and the loop body dereferences
+ * that pointer (auth->state->handler); a havocked pointer has no value set, so the dereference reads an arbitrary object
+ * (measured: a 15-line reproduction fails the same way).  The same transformation is therefore written out by hand:
+ *   call 1  one step of process_command from the entry state; then LOOP_INV is asserted (base case) and the conversation
+ *           is replaced by an ARBITRARY state satisfying LOOP_INV (= the state at the head of any later iteration);
+ *   call 2  one step from that arbitrary state; LOOP_INV is asserted again (inductive step) and the path is cut
+ *           (assume false), exactly as `--apply-loop-contracts` does.
+ * Every way out of the loop (end state, > MAX_BUFFER, process_command FALSE) is thus explored both from the entry state
+ * and from an arbitrary later iteration.  The real loop is unwound 3 times with an unwinding assertion. */
+struct { int in_len, out_len, failures, max_failures; const DBusAuthStateData *state; } g_entry;
+int g_pc_call_no;
+static _Bool loop_inv (const DBusAuth *auth)
+{
+  return AUTH_INV (auth) & B (!auth->needed_memory) & B (IS_LIVE_STATE (g_entry.state)) &
+         B (g_pc_consumed >= 2) & B ((long) SLEN (&auth->incoming) + (long) g_pc_consumed == (long) g_entry.in_len) &
+         B (G.process_command_calls == g_pc_lines) & B (g_pc_lines >= 1) & B (g_pc_lines <= g_pc_consumed) & B (G.sent >= 0) & B (G.sent <= g_pc_lines) &
+         B (SRV (auth)->failures >= g_entry.failures) & B (SRV (auth)->max_failures == g_entry.max_failures) &
+         BIMP (ST (auth) == S_AUTHD, g_pc_last_was_begin);
+}
+dbus_bool_t verif_stub_process_command_ind (DBusAuth *auth)
+{
+  PRE (SLEN (&auth->incoming) <= SPEC_AUTH_MAX_BUFFER && SLEN (&auth->outgoing) <= SPEC_AUTH_MAX_BUFFER, "process_command is reached with at most 16384 bytes buffered in either direction");
+  g_pc_call_no++;
+  if (!verif_stub_process_command (auth)) return FALSE;
+  if (g_pc_call_no == 1)
+    {
+      POST (loop_inv (auth), "do_work loop invariant holds after the first command (base case)");
+      /* jump to the head of an arbitrary later iteration */
+      c08_havoc_conversation (auth, 1);
+      { int n = nondet_int (); __CPROVER_assume (n >= 0 && n <= STR_MAX); SM (&auth->incoming)->len = n; }
+      { int n = nondet_int (); __CPROVER_assume (n >= 0 && n <= STR_MAX); SM (&auth->outgoing)->len = n; }
+      SRV (auth)->failures = nondet_int (); auth->unix_fd_negotiated = nondet_bool ();
+      G.sent = nondet_int (); G.last = nondet_int (); G.process_command_calls = nondet_int (); g_pc_lines = nondet_int (); g_pc_consumed = nondet_int (); g_pc_last_was_begin = nondet_bool ();
+      __CPROVER_assume (loop_inv (auth));
+      return TRUE;
+    }
+  POST (loop_inv (auth), "do_work loop invariant is preserved by one more command (inductive step)");
+  __CPROVER_assume (0);
+  return TRUE;
+}
 #endif
